@@ -22,11 +22,9 @@ fn conv(s: &SeqSpec) -> PResult {
     let i: Seq<IupacC> = no_panic("to_iupac_panic", "Seq::<Iupac>::from(&dna)", || Seq::from(sl))?;
     let exp_i: Vec<u8> = letters.iter().map(|&l| model::set_of_letter(l)).collect();
     check_content(&si, &i, &exp_i, "to_iupac")?;
-    check_image(&i, &exp_i, "to_iupac")?;
     ensure_eq!(i.to_string(), txt, "to_iupac/letters", "Iupac conversion displays");
     let t: Seq<TextC> = no_panic("to_text_panic", "Seq::<text::Dna>::from(&dna)", || Seq::from(sl))?;
     check_content(&st, &t, &letters, "to_text")?;
-    check_image(&t, &letters, "to_text")?;
     ensure_eq!(t.to_string(), txt, "to_text/letters", "text conversion displays");
     // the source is untouched and displays the same letters
     check_symbols(&sd, sl, &s.codes, "source")?;
@@ -96,7 +94,6 @@ fn trim<C: Cm>(case: &Trim) -> PResult {
     match (&exp, &got) {
         (Ok(codes), Ok(s)) => {
             check_content(&sy, s, codes, &format!("trim_ok/{n}")).map_err(|f| Fail { site: f.site, msg: format!("trim_u8({shown:?}): {}", f.msg) })?;
-            check_image(s, codes, &format!("trim_ok/{n}"))?;
         }
         (Err(b), Err(ParseBioError::UnrecognisedBase(x))) => ensure_eq!(x, b, format!("trim_err_byte/{n}"), "trim_u8({shown:?}) reported byte"),
         (Ok(codes), Err(e)) => fail!(format!("trim_rejected/{n}"), "trim_u8({shown:?}) failed with {e:?}; the span parses to {}", sy.text(codes)),
